@@ -40,7 +40,7 @@ class HttpAccessor(neuroglancer_scripts.accessor.Accessor):
         r = urllib.parse.urlsplit(base_url)
         self.base_url = urllib.parse.urlunsplit((
             r.scheme, r.netloc,
-            r.path if r.path[-1] == "/" else r.path + "/",
+            r.path if r.path.endswith("/") else r.path + "/",
             "", ""))
 
     def chunk_relative_url(self, key, chunk_coords):
